@@ -48,7 +48,8 @@ Definition print_fld (f : fld) : list Z :=
    through as the text they were read from — the extraction itself is property C04).  Same file format. *)
 (* DelimL: a delimited table (BED, BedGraph, ...) read lazily from a canonical file, then sliced / masked / re-ordered /
    np.concatenate'd but not modified: its records are passed through as the text they were read from *)
-Inductive fmt := Delim | DelimL | Vcf | VcfU | VcfL | Fasta (w : Z) | Fastq.
+(* Sam: a SAMEntry table (eleven typed columns + the optional tags as one rest-of-line text cell) *)
+Inductive fmt := Delim | DelimL | Sam | Vcf | VcfU | VcfL | Fasta (w : Z) | Fastq.
 
 (* sequence text in lines of w characters, every line terminated by LF *)
 Fixpoint wrap_fuel (fuel : nat) (w : nat) (s : list Z) : list Z :=
@@ -65,9 +66,18 @@ Definition wrap (w : Z) (s : list Z) : list Z := wrap_fuel (length s) (Z.to_nat 
 Definition vcf_shift (d : Z) (r : row) : row :=
   match r with c :: FI p :: rest => c :: FI (p + d) :: rest | _ => r end.
 Definition ser_delim (r : row) : list Z := intercalate [9] (map print_fld r) ++ [10].
+(* SAM: the optional tags are the last cell; when it is empty the line ends after the cell before it — no TAB
+   (SAM-standard spelling; both write paths since /repo 81bde1f) *)
+Definition ser_sam (r : row) : list Z :=
+  let texts := map print_fld r in
+  match last texts [0] with
+  | [] => intercalate [9] (removelast texts) ++ [10]
+  | _ => intercalate [9] texts ++ [10]
+  end.
 Definition ser_row (f : fmt) (r : row) : list Z :=
   match f with
   | Delim | DelimL => ser_delim r
+  | Sam => ser_sam r
   | Vcf | VcfU | VcfL => ser_delim (vcf_shift 1 r)
   | Fasta w => match r with
                | [n; s] => [62] ++ print_fld n ++ [10] ++ wrap w (print_fld s)
@@ -203,7 +213,7 @@ Fixpoint parse_fastq (fuel : nat) (ls : list (list Z)) : option (list row) :=
   end.
 Definition parse_raw_with pf (f : fmt) (schema : list Z) (file : list Z) : option (list row) :=
   match f with
-  | Delim | DelimL => all_some (map (parse_line_with pf schema) (lines file))
+  | Delim | DelimL | Sam => all_some (map (parse_line_with pf schema) (lines file))
   | Vcf | VcfU | VcfL => option_map (map (vcf_shift (-1)))
              (all_some (map (parse_line_with pf schema) (drop_comments (lines file))))
   | Fasta _ => parse_fasta None (lines file)
@@ -236,6 +246,12 @@ Definition m_fasta_last_before_header : bool := true.
 (* dump_csv.join_columns / one_line_buffer.join_fields: cell length + separator byte + column offset *)
 Definition m_line_len (clen off : Z) : Z := clen + 1 + off.
 Definition m_join_nl_start (n : nat) : nat := (n - 1)%nat.
+(* buffers/sam.SAMBuffer.join_fields *)
+(* SAMBuffer.from_data hands the columns to SAMBuffer.join_fields (true) rather than to the generic dump_csv (false) *)
+Definition m_sam_eager_joins_fields : bool := true.
+Definition m_sam_no_tags : Z -> bool := fun L => L =? 1.
+Definition m_sam_cell_end : Z -> Z := fun c => c - 1.
+Definition m_sam_drop_index (r n : Z) : Z := r * n + n - 2.
 Definition m_sep : Z := 9.
 Definition m_newline : Z := 10.
 (* fastq_buffer.FastQBuffer *)
@@ -325,13 +341,38 @@ Definition scatter (offs : list nat) (cols : list (list (list Z))) (nrow : nat) 
             (seq 0 n)
             (template (line_lengths offs cols nrow)).
 
-(* dump_csv.join_columns + ravel *)
-Definition join_columns (cols : list (list (list Z))) (nrow : nat) : list Z :=
+(* dump_csv.join_columns: the ragged array of cells, each with its separator / line end ... *)
+Definition join_lines (cols : list (list (list Z))) (nrow : nat) : list (list Z) :=
   let n := length cols in
   let lines := scatter (repeat O n) cols nrow in
   let lines := map (set_last m_sep) lines in
-  let lines := map_stride (set_last m_newline) (m_join_nl_start n) n lines in
-  concat lines.
+  map_stride (set_last m_newline) (m_join_nl_start n) n lines.
+(* ... and its ravel *)
+Definition join_columns (cols : list (list (list Z))) (nrow : nat) : list Z := concat (join_lines cols nrow).
+
+(* buffers/sam.SAMBuffer.join_fields: join_columns, then the separator before an empty last cell is masked out.
+     no_tags = flatnonzero(lines.lengths[n-1::n] == 1); cell_ends = cumsum(lines.lengths) - 1
+     keep[cell_ends[no_tags * n + n - 2]] = False; flat[keep] *)
+Fixpoint stride_sel {A} (skip n : nat) (l : list A) : list A :=
+  match l with
+  | [] => []
+  | x :: r => match skip with
+              | S k => stride_sel k n r
+              | O => x :: stride_sel (n - 1) n r
+              end
+  end.
+Definition sam_join_fields (cols : list (list (list Z))) (nrow : nat) : list Z :=
+  let n := length cols in
+  let lines := join_lines cols nrow in
+  let flat := concat lines in
+  let lens := map len lines in
+  let no_tags := flatnonzero (map m_sam_no_tags (stride_sel (m_join_nl_start n) n lens)) in
+  let cell_ends := map m_sam_cell_end (cumsum lens) in
+  let dropped := map (fun r => nthZ cell_ends (m_sam_drop_index r (Z.of_nat n))) no_tags in
+  np_delete flat dropped.
+Definition sam_from_data (rows : list row) : list Z :=
+  let ncol := length (hd [] rows) in
+  sam_join_fields (columns ncol (map (map col_text) rows)) (length rows).
 Definition delim_from_data (rows : list row) : list Z :=
   let ncol := length (hd [] rows) in
   join_columns (columns ncol (map (map col_text) rows)) (length rows).
@@ -427,6 +468,7 @@ Definition union_info_writable := true.
 Definition from_data (f : fmt) (rows : list row) : Z * list Z :=
   match f with
   | Delim => (0, delim_from_data rows)
+  | Sam => (0, if m_sam_eager_joins_fields then sam_from_data rows else delim_from_data rows)
   | Vcf => (0, delim_from_data (map (vcf_shift m_vcf_pos_delta) rows))
   | VcfU => if union_info_writable then (0, delim_from_data (map (vcf_shift m_vcf_pos_delta) rows)) else (2, [])
   | VcfL => (0, serialise VcfL rows)      (* buffer.data.ravel(): the canonical source lines *)
@@ -449,7 +491,7 @@ Definition from_data_lazy_pos (rows : list row) : list Z :=
   delim_from_data (map (vcf_shift m_vcf_pos_delta) rows).
 
 (* ---- NpBufferedWriter.write, files._get_buffered_file ---- *)
-Definition has_header (f : fmt) : bool := match f with Delim | DelimL | Vcf | VcfU | VcfL => true | _ => false end.
+Definition has_header (f : fmt) : bool := match f with Delim | DelimL | Sam | Vcf | VcfU | VcfL => true | _ => false end.
 (* `self._file_obj.mode != 'ab'`: a GzipFile's mode is an int, never 'ab' — the code as it is *)
 Definition mode_is_ab_pinned (append gz : bool) : bool := append && negb gz.
 Definition mode_is_ab_fixed (append gz : bool) : bool := append.
